@@ -79,9 +79,12 @@ JOBS += [
     ej('fill_def_levels', loops=2),
     ej('prefix_sum_i32', loops=2, checks=NO_OVF), ej('prefix_sum_i64', loops=2, checks=NO_OVF),
     ej('gather_i32', loops=3), ej('gather_i64', loops=2), ej('gather_float', loops=3), ej('gather_double', loops=2),
-    # 4-byte memcpy calls only: exact byte-wise memcpy model of width 4 (fewer conditional array updates)
-    ej('byte_stream_split_encode_float', loops=2, defines=['__SSE4_2__=1', 'CQV_MEMCPY_EXACT=4'], unwindset=[u for u in UNW_IA32 if u != 'memcpy.0:17'] + ['memcpy.0:5'] + UNW_SSE),
-    ej('byte_stream_split_decode_float', loops=2, defines=['__SSE4_2__=1', 'CQV_MEMCPY_EXACT=4'], unwindset=[u for u in UNW_IA32 if u != 'memcpy.0:17'] + ['memcpy.0:5'] + UNW_SSE),
+    # byte-stream split float: one job per ghost stream number b (the four together cover every output byte);
+    # 4-byte memcpy calls only: exact byte-wise memcpy model of width 4
+] + [ej('byte_stream_split_%s_float' % dirn, loops=2, name='c15_sse_byte_stream_split_%s_float_b%d' % (dirn, b),
+        defines=['__SSE4_2__=1', 'CQV_MEMCPY_EXACT=4', 'CQV_FIX_B=%d' % b],
+        unwindset=[u for u in UNW_IA32 if u != 'memcpy.0:17'] + ['memcpy.0:5'] + UNW_SSE)
+     for dirn in ('encode', 'decode') for b in range(4)] + [
     ej('byte_stream_split_encode_double', loops=2), ej('byte_stream_split_decode_double', loops=1),
     ej('unpack_bools', loops=2),   # full count domain (591c517)
     # domain of the SSE kernel is documented as bytes 0/1 ("Input bytes should be 0 or 1"); the claim is made element by
@@ -134,7 +137,7 @@ c15_sse_fill_def_levels c15_sse_prefix_sum_i32 c15_sse_prefix_sum_i64 c15_sse_ga
 c15_sse_bitunpack8_4bit c15_sse_bitunpack8_8bit c15_sse_pack_bools_01
 c15_sse_find_run_length_i32 c15_sse_count_non_nulls c15_sse_build_null_bitmap
 """.split())
-THOROUGH = {'c15_sse_crc32c': 100, 'c15_scalar_match_copy_bounded': 105, 'c15_sse_match_copy_bounded': 115, 'c15_scalar_byte_split_encode_double': 220, 'c15_scalar_byte_split_decode_double': 60,
+THOROUGH = {'c15_sse_gather_i64': 300, 'c15_sse_gather_float': 300, 'c15_sse_gather_double': 300, 'c15_sse_crc32c': 100, 'c15_scalar_match_copy_bounded': 105, 'c15_sse_match_copy_bounded': 115, 'c15_scalar_byte_split_encode_double': 220, 'c15_scalar_byte_split_decode_double': 60,
             'c15_sse_gather_i32': 300, 'c15_sse_prefix_sum_i32': 95, 'c15_sse_prefix_sum_i64': 90}
 NOTES = {}
 for j in JOBS:
